@@ -164,12 +164,36 @@ func main() {
 		dist["concurrent-burst"] += 12
 	}
 	env.Close()
+	// ca_cert is a CHAIN file (the signing CA followed by the root that issued it); clients trust the signing CA
+	{
+		cdir := filepath.Join(*flagOut, "envchain")
+		envc, err := e2elib.Start(e2elib.Options{Backend: "memory", Dir: cdir, TLS: true, CAChain: true})
+		total++
+		dist["ca-chain-file"]++
+		if err != nil {
+			failures = append(failures, failure{"ca-chain-file", "-", "", "the proxy does not start with a CA file that holds the signing CA followed by its root: " + err.Error()})
+		} else {
+			for _, h := range []string{"chain-a.example.org", "127.0.0.1", "chain-b.example.net"} {
+				c, err := connect(envc, h+":443")
+				if err == nil {
+					err = handshake(envc, c, h)
+				}
+				total++
+				dist["ca-chain-file"]++
+				if err != nil {
+					failures = append(failures, failure{"ca-chain-file", h, "", "CA file = signing CA followed by its root; client trusts the signing CA: " + err.Error()})
+				}
+			}
+			envc.Close()
+		}
+		os.RemoveAll(cdir)
+	}
 	if len(failures) > 12 {
 		failures = failures[:12]
 	}
 	out := map[string]any{
 		"harness": "tunnelcert", "seed": *flagSeed, "tier": *flagTier, "total": total, "distinct": total, "distinct_nontrivial": total,
-		"rule":         "real proxy, CONNECT tunnels: forced schedule CONNECT A / 200 / CONNECT B / 200 / handshake in either order (different hosts, and the same host twice) + a ClientHello whose server_name differs from the CONNECT target (alias, name for an IP target, other letter case, none) + bursts of 12 concurrent tunnels to 5 hosts; every handshake is verified by crypto/tls against the configured CA with the tunnel's own host as server name (chain, name, validity now)",
+		"rule":         "real proxy, CONNECT tunnels: forced schedule CONNECT A / 200 / CONNECT B / 200 / handshake in either order (different hosts, and the same host twice) + a ClientHello whose server_name differs from the CONNECT target (alias, name for an IP target, other letter case, none) + bursts of 12 concurrent tunnels to 5 hosts + a proxy whose ca_cert is a chain file (signing CA followed by its root); every handshake is verified by crypto/tls against the configured CA with the tunnel's own host as server name (chain, name, validity now)",
 		"distribution": map[string]any{"scenario": dist},
 		"samples":      []any{map[string]any{"scenario": "overlapped-setup", "first": "alpha0.example.org", "second": "beta0.example.net"}},
 		"files":        []string{}, "readable": []any{},
